@@ -1321,7 +1321,12 @@ func c31OfflineOnlyIfAbsent(c *Ctx, rule string, fn *ssa.Function) {
 	c.Guard(rule, fn, eff, online+"["+U+"]#1 == false", "seen["+U+"]#1 == false")
 	c33like := strings.TrimSuffix(U, ".UID")
 	if c33like != U {
-		c.StoreShape(rule, fn, c33like, "target.Recipients[*]")
+		if glob("target.Recipients[*]", c33like) {
+			// the appended UID is read straight from the target's recipient (a read-only local renders as its source)
+			c.add("shape", rule, name+"#storeshape:recipient", Held, c.P.InstrPos(app), "the appended UID is "+U)
+		} else {
+			c.StoreShape(rule, fn, c33like, "target.Recipients[*]")
+		}
 	}
 }
 
